@@ -34,6 +34,9 @@ type Policy struct {
 	Endian  string // "le" | "be"
 	Default uint32
 	Groups  []Group
+	// WarmArch, when set, makes Compile assemble the same library value for that architecture
+	// first (result discarded): the verdict and the program must not depend on such a history.
+	WarmArch string
 }
 
 func Hex(s string) string {
@@ -162,6 +165,13 @@ func (p *Policy) Compile() (reply string, insts []bpf.Instruction) {
 		}
 	}()
 	gp := p.ToGo()
+	if p.WarmArch != "" {
+		// history: the same library value has been assembled for another architecture before
+		func() {
+			defer func() { _ = recover() }()
+			CompileGo(&gp, p.WarmArch, p.Endian)
+		}()
+	}
 	return CompileGo(&gp, p.Arch, p.Endian)
 }
 
